@@ -3,6 +3,7 @@
 # time, each on a scratch worktree of /repo's HEAD (seedrunw.sh); /repo itself is
 # not touched. One line per seed: CAUGHT by <check> / MISSED / NEUTRALISED (a
 # seed recorded with an empty caught_by list). VERIF_FAIL_FAST shortens the runs.
+# SEED_FILTER=C12 restricts the run to the seeds whose names begin that way.
 cd /verif
 jobs=${1:-4}
 export VERIF_FAIL_FAST=1
@@ -18,4 +19,4 @@ one() {
   echo "$name MISSED ($last)"
 }
 export -f one
-ls -d seeded/*/ | sed 's|/$||' | xargs -P $jobs -I{} bash -c 'one {}'
+ls -d seeded/${SEED_FILTER:-}*/ | sed 's|/$||' | xargs -P $jobs -I{} bash -c 'one {}'
